@@ -79,9 +79,10 @@ Proof.
     + (* start call *)
       destruct (in_call y) eqn:Ec; try discriminate.
       destruct (valid (st0 y) || valid (st1 y)).
-      * destruct (workers_idle (st0 y) && workers_idle (st1 y)) eqn:Ei; [|discriminate].
-        apply andb_true_iff in Ei. destruct Ei as [J0 J1]. inversion H; subst; clear H.
-        constructor; cbn; apply inv5_begin_start; assumption.
+      * destruct (workers_idle (st0 y) && workers_idle (st1 y)) eqn:Ei.
+        -- apply andb_true_iff in Ei. destruct Ei as [J0 J1]. inversion H; subst; clear H.
+           constructor; cbn; apply inv5_begin_start; assumption.
+        -- inversion H; subst; clear H. constructor; cbn; assumption.
       * inversion H; subst; clear H. constructor; cbn; assumption.
     + (* start returns *)
       destruct (in_call y) eqn:Ec; try discriminate.
@@ -99,6 +100,11 @@ Proof.
         -- tauto.
         -- destruct (stopped_ok_spec _ X1) as [V|V]; [right; destruct (B1 V); congruence | left; congruence].
         -- tauto.
+    + (* start refused by the HAL (start while running) *)
+      destruct (in_call y) eqn:Ec; try discriminate.
+      cbv zeta in H. match type of H with context [if ?b then _ else _] => destruct b eqn:Eb end; [|discriminate].
+      inversion H; subst; clear H. cbn in Hc0, Hc1. destruct Hc0 as [A0 B0], Hc1 as [A1 B1].
+      constructor; cbn; apply inv5_fail_start; assumption.
     + (* stop call *)
       destruct (in_call y) eqn:Ec; try discriminate. inversion H; subst; clear H. cbn in Hc0, Hc1. destruct Hc0, Hc1.
       constructor; cbn; apply inv5_begin_stop; auto; congruence.
